@@ -113,7 +113,7 @@ func genOp(t *rapid.T) Op {
 	return op
 }
 
-var faults = []string{"no-action", "unknown-action", "observe-in-group", "missing-name", "missing-value", "missing-buckets", "add-and-set"}
+var faults = []string{"no-action", "unknown-action", "observe-in-group", "missing-name", "missing-value", "missing-buckets", "add-and-set", "expire-without-group"}
 
 func breakOp(op Op, fault string) Op {
 	switch fault {
@@ -137,6 +137,9 @@ func breakOp(op Op, fault string) Op {
 		op = Op{Name: "m_hist", Action: "observe", Value: f(1), Labels: map[string]string{"a": "x"}}
 	case "add-and-set":
 		op.Add, op.Set, op.Action, op.Value = f(1), f(2), "", nil
+	case "expire-without-group":
+		// expire is documented for groups only
+		op = Op{Name: "m_gauge_a", Action: "expire"}
 	}
 	return op
 }
